@@ -195,8 +195,11 @@ Section Pool.
 
   (* first slot at which a key function fails for this tx *)
   Definition err_slot (h : N) : option N :=
+    (* since repo commit 8d9781ec the input-slot key function enumerates the
+       transaction's own outpoints and cannot fail (before, it went through
+       UTXOCache.GetTxReference and failed when [t_refok] was false) *)
     let e_in := match inputs_slot with
-                | Some s => if applies tbl s (t_type (U h)) && negb (t_refok (U h)) then Some s else None
+                | Some s => if applies tbl s (t_type (U h)) && false then Some s else None
                 | None => None end in
     match t_keyerr (U h), e_in with
     | Some a, Some b => Some (N.min a b)
